@@ -217,6 +217,48 @@ def runHybrid {T : Type} (L : Bio.Lib T) (dump : T → List Node) (fuel : Nat) (
     let cands := Bio.stableModelCandidates L b.2 b.1
     (runWith (secHybrid fuel heu cands (dictSizeOf st) h.2) (sections .hybrid f) (h.1, [])).2
 
+/-! compiled form of `runHybrid`: Lean is strict, so `runHybrid` as written would compute the candidate
+list of `--stmrew`/`--stmrew2` (for `--stmrew2`: the conjunction `stable_representation()` over ALL
+conditions on the library and its `sat_valuations`) for EVERY hybrid invocation, whether or not the
+section is printed; Rust computes it inside `stable_bdd_representation`, i.e. only for that section. The
+compiled form computes it only if the section is printed; proved equal (`@[csimp]`), the theorems keep
+speaking about `runHybrid`. -/
+
+theorem runWith_congr (R R' : Section → Store → Store × List (List Nat)) :
+    ∀ (l : List Section) (acc : Store × List Block), (∀ sec ∈ l, ∀ s, R sec s = R' sec s) →
+      runWith R l acc = runWith R' l acc := by
+  intro l
+  induction l with
+  | nil => intro acc _; rfl
+  | cons x xs ih =>
+    intro acc h
+    simp only [runWith]
+    rw [h x (List.mem_cons_self ..) acc.1]
+    exact ih _ (fun sec hs s => h sec (List.mem_cons_of_mem _ hs) s)
+
+theorem secHybrid_cands_irrelevant (fuel : Nat) (heu : SM.Heu) (c c' : List (List Nat)) (n : Nat) (ac : List Nat)
+    (sec : Section) (s : Store) (h : sec ≠ .stmrew) :
+    secHybrid fuel heu c n ac sec s = secHybrid fuel heu c' n ac sec s := by
+  cases sec <;> first | rfl | exact absurd rfl h
+
+def runHybridL {T : Type} (L : Bio.Lib T) (dump : T → List Node) (fuel : Nat) (f : Flags) (heu : SM.Heu)
+    (st : PState) : Option (List Block) :=
+  (bioBuild L st f.stmrew).map fun b =>
+    let h := hybridStep L dump b.1
+    let cands := if Section.stmrew ∈ sections .hybrid f then Bio.stableModelCandidates L b.2 b.1 else []
+    (runWith (secHybrid fuel heu cands (dictSizeOf st) h.2) (sections .hybrid f) (h.1, [])).2
+
+@[csimp] theorem runHybrid_eq_runHybridL : @runHybrid = @runHybridL := by
+  funext T L dump fuel f heu st
+  unfold runHybrid runHybridL
+  congr 1
+  funext b
+  by_cases hm : Section.stmrew ∈ sections .hybrid f
+  · simp only [if_pos hm]
+  · simp only [if_neg hm]
+    rw [runWith_congr _ _ (sections .hybrid f) _ (fun sec hs s =>
+      secHybrid_cands_irrelevant fuel heu _ [] (dictSizeOf st) _ sec s (fun e => hm (e ▸ hs)))]
+
 /-! ## the whole run -/
 
 /-- the blocks of an invocation on a (sorted) parser object; `none` = the construction panics -/
